@@ -30,7 +30,8 @@ RULE = ("for each of the 25 message classes the grammar table enumerates option 
         "directly and through 8 serializer variants; heterogeneous batches of 1/2/3/17 messages; cache attack (A, B, mutate+"
         "uncache) and cache sequences (programs of serialize / mutate+uncache / continue-with-the-received-object steps over "
         "3-8 serializer instances); every other draw puts Unicode text that is not NFC-stable into all URI-typed fields, string "
-        "options and kwargs keys; messages whose serialized size brackets 2^16 and exceeds 2^20 octets (alone and inside "
+        "options and kwargs keys; SUBSCRIBE/REGISTER pattern URIs take every shape admissible under their match policy (prefix: "
+        "trailing empty component; wildcard: leading / inner / trailing / multiple / all-empty components); messages whose serialized size brackets 2^16 and exceeds 2^20 octets (alone and inside "
         "mixed batches). Thorough adds: 4 draws per (subset, mode); 6 sub-seeds' worth of re-seeded random subsets / value "
         "rotations x all payload modes with a deep payload generator (depth 8 / 24, containers up to 21 elements, strings and "
         "binaries up to 8 KiB, every integer width boundary within +-2^53, binary64 edge values; NaN/+-inf only through "
@@ -47,6 +48,7 @@ ASSUMPTIONS = [
     "an EMPTY opaque payload (payload=b'' + enc_algo) counts as an admissible payload-transparency triple: the constructors assert only `payload is None or type(payload) == bytes`, parse() accepts and reproduces [.., b''] + enc_algo, and a zero-length body is a legal value for enc_algo='mqtt' (MQTT PUBLISH may carry an empty body) and for any x_ algorithm; its loss is keyed as ONE mechanism per class (C03/<Class>/payload-empty/lost/<where>)",
     "a null in the Arguments position of a kwargs-only message (what 6 of the 7 payload classes emit and accept) is not asserted against: args None == [] is a documented equivalence of the round trip; only a message the library cannot read back is reported",
     "URI-typed fields (realm, topic, procedure, error, reason), string options (authid, authrole, transaction_hash, ..., forward_for entries), kwargs keys and an args element carry, in every other draw, text that is NOT stable under Unicode normalisation (NFD sequences, Hangul jamo, canonical singletons U+212B/U+2126/U+F900, composition exclusions, reordered combining marks, astral, zero-width joiners, mixed script); every component obeys the loose URI grammar (no whitespace, '.', '#'); strings are compared code point by code point - the oracle never normalises (unicodedata is used only to classify the generated inputs for the counters)",
+    "pattern URIs (SUBSCRIBE.topic, REGISTER.procedure) are drawn per match policy, independently of the other option values: exact/absent -> no empty component; prefix -> also a trailing empty component or the empty URI; wildcard -> empty components at leading / inner / trailing positions, several of them, all-empty ('..') and the empty URI; every (class, policy, shape) is additionally enumerated bare and with all other options, with ASCII and with non-NFC components",
     "third-party decoders (stdlib json, msgpack, cbor2, bjdata) are trusted to decide whether produced bytes are well-formed for the is_binary check",
     "both txaio frameworks are used (shards alternate tx/aio); the serializers need one selected because of txaio.time_ns",
 ]
@@ -69,6 +71,9 @@ DECIDING = {
     "batch_sizes": lambda tier: 16 if tier == "quick" else 28,
     "non_nfc_uri_roundtrips": lambda tier: 3000 if tier == "quick" else 150000,
     "non_nfc_uri_fields": 11,
+    "pattern_uri_roundtrips": lambda tier: 800 if tier == "quick" else 3000,
+    "pattern_uri_non_nfc_roundtrips": lambda tier: 300 if tier == "quick" else 1000,
+    "pattern_uri_shapes": 26,
     "unicode_option_roundtrips": lambda tier: 3000 if tier == "quick" else 150000,
     "unicode_kwargs_key_roundtrips": lambda tier: 1000 if tier == "quick" else 50000,
     "is_binary_checked": 5000,
@@ -249,6 +254,13 @@ class Monitor:
             for kind in case.get("kinds", ()):
                 if kind in ("float-nonfinite", "float-tiny"):
                     R.count(kind.replace("-", "_") + "_roundtrips")
+            pat = case.get("pattern")
+            if pat:
+                R.seen("pattern_uri_shapes", "%s|%s|%s" % (spec.name, pat[0], pat[1]))
+                if pat[1] != "none":
+                    R.count("pattern_uri_roundtrips")
+                    if case.get("uni") and case["uni"]["uri"]:
+                        R.count("pattern_uri_non_nfc_roundtrips")
             uni = case.get("uni")
             if uni:
                 if uni["uri"]:
@@ -540,9 +552,12 @@ class _Driver:
         self.ncase = 0
         self.nbatch = 0
 
-    def one(self, spec, k, label, mode, f, pg, gen="base", sub=None):
+    def one(self, spec, k, label, mode, f, pg, gen="base", sub=None, pattern=None):
         mon, R, rng = self.mon, self.R, self.rng
         skip = D.skip_bases(pg)
+        if pattern is None:
+            # SUBSCRIBE / REGISTER: a pattern URI whose shape (empty components) is drawn independently per match policy
+            pattern = D.match_overlay(spec, f, random.Random("%s/c03/match/%s/%s/%s/%d" % (self.seed, gen, sub, spec.name, k)))
         uni = None
         if k % 2 == 0:
             # every other draw: URI-typed fields, string options, kwargs keys carry Unicode text that is not NFC-stable
@@ -551,6 +566,8 @@ class _Driver:
                 "skip": sorted(skip), "kinds": sorted(pg.kinds), "gen": gen}
         if uni is not None:
             case["uni"] = uni
+        if pattern is not None:
+            case["pattern"] = pattern
         if sub is not None:
             case["subseed"] = sub
         msg, expected, ok = mon.run_case(spec, label, mode, f, skip, case)
@@ -641,6 +658,10 @@ def run_shard(params, R):
             for spec in G.SPECS:
                 for k, label, mode, f, pg in D.gen_deep_cases(spec, sub, DEEP_DRAWS_T, part, parts):
                     drv.one(spec, k, label, mode, f, pg, "deep", sub)
+    # (B2) SUBSCRIBE / REGISTER: every (match policy, admissible URI shape) x {bare, all options} x {ASCII, Unicode}
+    for k, label, f, pat in D.pattern_cases(seed, part, parts, 4 if tier == "quick" else 16):
+        spec = G.BY_NAME[label.split("/")[0]]
+        drv.one(spec, k, label, "none", f, G.PayloadGen(random.Random(k)), "pattern", None, pat)
     # (C) huge messages
     drv.huge()
     # (D) every batch size with maximally heterogeneous content at least once per shard
